@@ -8,6 +8,7 @@ import (
 	"go/token"
 	"go/types"
 	"os"
+	"os/exec"
 	"sort"
 	"strings"
 
@@ -227,4 +228,13 @@ func ConstsOfType(pk *packages.Package, typeName string) []*types.Const {
 	}
 	sort.SliceStable(out, func(i, j int) bool { return out[i].Pos() < out[j].Pos() })
 	return out
+}
+
+// GoRoot returns GOROOT of the toolchain used for loading.
+func GoRoot() (string, error) {
+	out, err := exec.Command("go", "env", "GOROOT").Output()
+	if err != nil {
+		return "", err
+	}
+	return strings.TrimSpace(string(out)), nil
 }
